@@ -3918,8 +3918,16 @@ class OptionalNode(ActionSinkNode):
         # If we need to, add a boring after thing
         if self.next is not None:
             sub_dfa.append_after(self.next.convert(current_error_handlers), chain_actions=self.finish_actions)
-        else:
-            sub_dfa.chain_actions_at_end(self.finish_actions)
+        elif self.finish_actions:
+            # Nothing follows inside this block, but actions do (adopted from after the enclosing block). The skip path -- the
+            # start state, which has no incoming transition yet -- has nothing to carry them, so give the optional an explicit end.
+            end_dfa = DFA()
+            end_start, end_state = DFState(), DFState()
+            end_dfa.add(end_start)
+            end_dfa.add(end_state)
+            end_dfa.mark_accepting(end_state)
+            end_start.transition(DFTransition([DFTransition.Else], fallthrough=True).to(end_state).handles_else())
+            sub_dfa.append_after(end_dfa, chain_actions=self.finish_actions)
 
         return sub_dfa
 
